@@ -179,6 +179,10 @@ run_directed = directed.run
 
 def cases(tier, rng):
     thorough = tier == "thorough"
+    for c in directed.exception_from_new_cases():
+        yield "directed-exception-from-new", c
+    for c in directed.interrupt_while_message_is_built_cases():
+        yield "directed-interrupt-while-message-is-built", c
     for c in directed.odd_exception_classes_cases():
         yield "directed-odd-exception-classes", c
     for c in directed.cancelled_in_body_cases():
@@ -258,7 +262,7 @@ def _ck_cases(tier, rng):
                                    "exc": genck.exc(0), "delivery": "raise"}
         # repr faults: only meaningful when a message is built with the default error
         nonrecv = c["args"][1:] if genck.RECV[c["kind"]] else c["args"]
-        if any(ev[0] == "msg" for ev in mo["trace"]) and nonrecv:
+        if any(ev[0] == "msg" for ev in mo["trace"]) and nonrecv and c["args"][-1] != 777:      # (the repr of None cannot fail)
             for e in (genck.exc(7003, True), genck.exc(7501, False)):
                 f = copy.deepcopy(c)
                 target = c["args"][-1]
